@@ -28,8 +28,27 @@ pub enum AOp {
     Upd(i32, i32),
     Rem(i32),
     Clr,
+    /// sync of remote i, snapshot keys in ascending order
     Sync(u8),
+    /// sync of remote i, snapshot keys in the p-th (p >= 1) lexicographic permutation of the
+    /// ascending order: the lane reads them from a `HashMap`, so every order is a behaviour
+    SyncP(u8, u8),
     Pop,
+}
+
+/// The p-th lexicographic permutation of `keys` (sorted ascending first).
+fn permuted(mut keys: Vec<i32>, p: usize) -> VecDeque<i32> {
+    keys.sort();
+    let mut out = VecDeque::new();
+    let mut p = p;
+    let mut fact: usize = (1..=keys.len()).product();
+    while !keys.is_empty() {
+        fact /= keys.len();
+        let i = (p / fact).min(keys.len() - 1);
+        p %= fact;
+        out.push_back(keys.remove(i));
+    }
+    out
 }
 
 type Inner = MapStoreInner<i32, i32, WriteQueues<i32>, HashMap<i32, i32>>;
@@ -112,8 +131,14 @@ impl ASim {
                 self.truth.clear();
                 self.note_windows();
             }
-            AOp::Sync(i) => {
-                let keys: VecDeque<i32> = self.real.get_map(|m| m.keys().cloned().collect());
+            AOp::Sync(_) | AOp::SyncP(..) => {
+                let (i, p) = match op {
+                    AOp::Sync(i) => (i, 0usize),
+                    AOp::SyncP(i, p) => (i, *p as usize),
+                    _ => unreachable!(),
+                };
+                let keys: Vec<i32> = self.real.get_map(|m| m.keys().cloned().collect());
+                let keys = permuted(keys, p);
                 let clear_pending = self.real.queue().verif_key().contains("Clear");
                 self.real.queue().sync(sid(*i), keys);
                 let s = &mut self.syncers[*i as usize];
@@ -281,8 +306,25 @@ fn agent_enabled(hist: &[AOp]) -> Vec<AOp> {
     v.push(AOp::Clr);
     for i in 0..2u8 {
         // one sync per remote per history (a second sync of the same remote would need the first to finish)
-        if !hist.iter().any(|o| *o == AOp::Sync(i)) {
+        if !hist.iter().any(|o| matches!(o, AOp::Sync(j) | AOp::SyncP(j, _) if *j == i)) {
             v.push(AOp::Sync(i));
+            let mut content: BTreeSet<i32> = BTreeSet::new();
+            for o in hist {
+                match o {
+                    AOp::Upd(k, _) => {
+                        content.insert(*k);
+                    }
+                    AOp::Rem(k) => {
+                        content.remove(k);
+                    }
+                    AOp::Clr => content.clear(),
+                    _ => {}
+                }
+            }
+            let perms: usize = (1..=content.len()).product();
+            for p in 1..perms {
+                v.push(AOp::SyncP(i, p as u8));
+            }
         }
     }
     v.push(AOp::Pop);
